@@ -64,7 +64,8 @@ pub struct Scenario {
     pub snap: u8,
 }
 
-pub const RX: [(f64, f64); 7] = [(52.0, 4.0), (85.0, 10.0), (0.01, 179.9), (-33.9, 151.2), (40.0, -100.0), (0.0, 0.0), (-89.0, -179.95)];
+// (the last site has the latitude of the first and another longitude: anything remembered per latitude shows)
+pub const RX: [(f64, f64); 8] = [(52.0, 4.0), (85.0, 10.0), (0.01, 179.9), (-33.9, 151.2), (40.0, -100.0), (0.0, 0.0), (-89.0, -179.95), (52.0, -120.0)];
 pub const RANGES: [f64; 4] = [500.0, 50.0, 20000.0, 0.0];
 const ADDR: [u32; 5] = [0xabc001, 0x000a0b, 0x4840d6, 0xffffff, 0x7c0017];
 
@@ -77,7 +78,7 @@ fn possrc_s() -> impl Strategy<Value = PosSrc> {
         12 => (bearing_s(), 0u16..=300).prop_map(|(bearing, d_centinm)| PosSrc::Flight { bearing, d_centinm }),
         2 => (bearing_s(), prop_oneof![90u16..111, 500u16..3000, 1u16..90]).prop_map(|(bearing, km)| PosSrc::Jump { bearing, km }),
         2 => (bearing_s(), prop_oneof![Just(990u16), Just(1010), 0u16..1000, 1000u16..2000]).prop_map(|(bearing, permille)| PosSrc::AtRange { bearing, permille }),
-        1 => (0u32..131072, 0u32..131072).prop_map(|(yz, xz)| PosSrc::Raw { yz, xz }),
+        1 => (prop_oneof![4 => 0u32..131072, 1 => Just(0u32), 1 => Just(131071u32)], prop_oneof![4 => 0u32..131072, 1 => Just(0u32), 1 => Just(131071u32)]).prop_map(|(yz, xz)| PosSrc::Raw { yz, xz }),
         2 => Just(PosSrc::Same),
     ]
 }
@@ -561,6 +562,10 @@ fn step_model(model: &mut Model, b: &Built, added: Added, planes: &Airplanes, rx
     let was_tracked = model.recs.contains_key(&b.addr);
     if (added == Added::Yes) == was_tracked {
         fails.push(("C12/added".into(), format!("frame from {key} reported added={:?} although the address was {}tracked before it", added, if was_tracked { "" } else { "not " })));
+    }
+    if was_tracked && added == Added::Yes {
+        // only expiry removes a record: an aircraft that was never silent for the threshold is not new
+        fails.push(("C15/added_without_expiry".into(), format!("{key} is tracked and has not expired, but its frame is reported as newly added")));
     }
     if !was_tracked && ever.contains(&b.addr) {
         out.readds += 1;
